@@ -37,6 +37,8 @@ def scan_function(f, dim):
     def is_dim_lit(e):
         return isinstance(e, dict) and e.get("k") == "lit" and e.get("nttp") == "DIM"
 
+    loops = []       # enclosing loops, innermost last: True for a uniform coordinate loop
+
     def rec(n, comp_vars):
         if isinstance(n, list):
             for x in n:
@@ -45,6 +47,30 @@ def scan_function(f, dim):
         if not isinstance(n, dict):
             return
         k = n.get("k")
+        if k == "break" and loops and loops[-1]:
+            out.append((n, "a coordinate loop that stops early: whether later coordinates are processed depends on an earlier one"))
+        if k == "return" and any(loops):
+            out.append((n, "return from inside a coordinate loop: later coordinates are processed only if earlier ones do not return"))
+        if k in ("while", "do", "rfor"):
+            loops.append(False)
+            try:
+                for key, v in n.items():
+                    if isinstance(v, (dict, list)) and key not in ("t", "ty", "callee", "lt", "to"):
+                        rec(v, comp_vars)
+            finally:
+                loops.pop()
+            return
+        if k == "lambda":
+            saved = list(loops)
+            del loops[:]
+            try:
+                for sp_ in n.get("specs", []):
+                    rec(sp_.get("body"), comp_vars)
+                if not n.get("specs"):
+                    rec(n.get("body"), comp_vars)
+            finally:
+                loops.extend(saved)
+            return
         if k == "for":
             init, cond, inc = n.get("init"), n.get("cond"), n.get("inc")
             cv = set(comp_vars)
@@ -55,11 +81,11 @@ def scan_function(f, dim):
             rec(n.get("init"), comp_vars)
             rec(n.get("cond"), comp_vars)
             rec(n.get("inc"), comp_vars)
-            rec(n.get("body"), cv)
-            return
-        if k == "lambda":
-            for sp_ in n.get("specs", []):
-                rec(sp_.get("body"), comp_vars)
+            loops.append(len(cv) > len(comp_vars))
+            try:
+                rec(n.get("body"), cv)
+            finally:
+                loops.pop()
             return
         if k == "call" and callee(n).get("ns") == "Eigen" and "obj" in n:
             c = callee(n)
